@@ -69,6 +69,100 @@ def field_effects(fn, argn):
     return W, R, whole_w
 
 
+def _flag_edges(fn, argn, field, want):
+    """switch edges on which `(*arg_n).field` (a bool) is known to equal `want`"""
+    out = set()
+    for b in range(fn.n):
+        t = fn.term(b)
+        if t[0] != "switch" or t[4] != "bool" or t[1][0] not in ("c", "m") or t[1][1][1]:
+            continue
+        cur, inv, hit = t[1][1][0], False, False
+        for _ in range(5):
+            ds = [d for d in fn.defs.get(cur, []) if d[0] == "a" and not (d[3][0] == "use" and d[3][1][0] == "k")]
+            if len(ds) != 1:
+                break
+            rv = ds[0][3]
+            if rv[0] == "un" and rv[1] == "Not":
+                inv = not inv
+                cur = rv[2][1][0]
+                continue
+            if rv[0] == "use" and rv[1][0] in ("c", "m"):
+                pl = rv[1][1]
+                flds = [p[1] for p in pl[1] if isinstance(p, list) and p[0] == "f"]
+                o = fn.origin(["c", [pl[0], []]], at=ds[0][1])
+                if flds == [field] and o[0] == "arg" and o[1] == argn:
+                    hit = True
+                    break
+                if not flds:
+                    cur = pl[0]
+                    continue
+            break
+        if hit:
+            from .mir import switch_edges
+            for v, tgt in switch_edges(t):
+                if ((v != 0) != inv) == want:
+                    out.add((b, tgt))
+    return out
+
+
+def rule_valid(facts, impls):
+    """validity-gated states: if update() branches on self.valid (the default value is not an identity for the
+    combination), merge() may use other's value only after other.valid was seen true — or while adopting it wholesale
+    because self.valid is false"""
+    r = RuleResult("C07-VALID", "merge() reads other's value only under other.valid (or while self is still invalid) when update() is validity-gated", floor=5)
+    for (krate, st), ms in sorted(impls.items()):
+        if "update" not in ms or "merge" not in ms:
+            continue
+        up, mg = Fn(ms["update"]), Fn(ms["merge"])
+        if not (_flag_edges(up, 1, "valid", True) or _flag_edges(up, 1, "valid", False)):
+            continue          # update does not branch on validity: default is an identity (sum, bool_and, …)
+        other_idx = None
+        for l in range(2, mg.argc + 1):
+            if mg.locals[l].replace("&mut ", "").replace("&", "") == mg.locals[1].replace("&mut ", "").replace("&", ""):
+                other_idx = l
+        if other_idx is None:
+            continue
+        r.functions.update([up.id, mg.id])
+        ok_edges = _flag_edges(mg, 1, "valid", False) | _flag_edges(mg, other_idx, "valid", True)
+        reach_unguarded = mg.reach(0, avoid_edges=ok_edges)
+        bad = []
+        n = 0
+
+        def reads_other_value(x, at):
+            hits = []
+
+            def scan(y):
+                if isinstance(y, list):
+                    if len(y) == 2 and isinstance(y[0], int) and isinstance(y[1], list) and y[1] and all(isinstance(p, str) or (isinstance(p, list) and p) for p in y[1]):
+                        flds = [p[1] for p in y[1] if isinstance(p, list) and p[0] == "f"]
+                        o = mg.origin(["c", [y[0], []]], at=at)
+                        of = [p[1] for p in (o[2] if len(o) > 2 and isinstance(o[2], list) else []) if isinstance(p, list) and p[0] == "f"]
+                        allf = of + flds
+                        if o[0] == "arg" and o[1] == other_idx and allf and allf[0] != "valid":
+                            hits.append(allf[0])
+                        return
+                    for z in y:
+                        scan(z)
+            scan(x)
+            return hits
+        for b, i, pl, rv, ln in mg.assigns():
+            for f in reads_other_value(rv, b):
+                n += 1
+                if b in reach_unguarded:
+                    bad.append((f, ln))
+        for c in mg.calls():
+            for f in reads_other_value(c.args, c.bb):
+                n += 1
+                if c.bb in reach_unguarded:
+                    bad.append((f, c.line))
+        ok = not bad
+        r.inst({"impl": st.replace("glaredb_core::functions::aggregate::builtin::", ""), "reads_of_other_value": n, "unguarded": sorted(set(bad))}, ok)
+        for f, ln in sorted(set(bad)):
+            r.violate(mg.id, f"unguarded-other.{f}", f"merge() uses other.{f} on a path where neither `other.valid` was seen true nor `self.valid` false, although update() treats the "
+                      "default value as 'no value yet': merging an empty partial state (a partition that saw no rows of the group) corrupts the result", ms["merge"]["file"], ln)
+    return r
+
+
 def run(ctx):
     facts = ctx["facts"]
     r = RuleResult("C07-MERGE", "merge() writes and reads-from-other every state field that update() writes", floor=15)
@@ -106,7 +200,7 @@ def run(ctx):
             r.violate(mg.id, "merge-coverage", f"update() mutates {sorted(Wu)} but merge() does not write {sorted(missing_w)} / does not read other.{sorted(missing_r)}: "
                       "the contribution of a partition's partial state to these fields is lost when states are combined (result depends on the partition count)",
                       ms["merge"]["file"], ms["merge"]["line"])
-    return [r]
+    return [r, rule_valid(facts, impls)]
 
 
 CLAIM = {
